@@ -226,7 +226,7 @@ fn alphabet(patterns: &[&str], ascii: bool) -> Vec<char> {
 }
 
 /// Maximal literal runs of the patterns ("cd" and "cd" in `(?<=cd)cd`, "aa" in `(?<=a)aa`).
-fn literal_tokens(patterns: &[&str], ascii: bool) -> Vec<String> {
+pub fn literal_tokens(patterns: &[&str], ascii: bool) -> Vec<String> {
     let mut toks: Vec<String> = Vec::new();
     for p in patterns {
         let mut cur = String::new();
@@ -278,9 +278,9 @@ fn literal_tokens(patterns: &[&str], ascii: bool) -> Vec<String> {
 /// A haystack made of the patterns' own literal runs glued together, with a few random
 /// characters in between: adjacent and overlapping candidate matches, which is where the
 /// iteration cursor, the prefilter and look-behind context interact.
-fn gen_hay_tokens(rng: &mut Rng, toks: &[String], alpha: &[char], max_chars: u64) -> String {
+pub fn gen_hay_tokens(rng: &mut Rng, toks: &[String], alpha: &[char], max_chars: u64) -> String {
     let mut s = String::new();
-    let n = rng.range(2, 8);
+    let n = if max_chars > 32 { rng.range(8, 60) } else { rng.range(2, 8) };
     for _ in 0..n {
         match rng.below(8) {
             0 => s.push(alpha[rng.usize_below(alpha.len())]),
@@ -440,7 +440,10 @@ pub fn gen_world(base: u64, run: u64, profile: Profile) -> World {
         let ascii_only = any_ascii && (hays.iter().all(|h| !h.text.is_ascii()) || wl.chance(1, 2));
         let a = if ascii_only { &alpha_a } else { &alpha_u };
         let toks = if ascii_only { &toks_a } else { &toks_u };
-        let text = if !toks.is_empty() && wl.chance(2, 5) { gen_hay_tokens(&mut wl, toks, a, 32) } else { gen_hay(&mut wl, a, 32) };
+        // 1 in 16 haystacks is long (up to 160 chars): size thresholds in prefilter scans
+        // (SIMD widths, windows, unrolled loops) are out of reach of 32-char haystacks
+        let maxc = if wl.chance(1, 16) { 160 } else { 32 };
+        let text = if !toks.is_empty() && wl.chance(2, 5) { gen_hay_tokens(&mut wl, toks, a, maxc) } else { gen_hay(&mut wl, a, maxc) };
         // haystack 0 is always shared so that every thread sees at least one
         let owner = if !hays.is_empty() && wl.chance(1, 4) { Some(wl.below(nthreads as u64) as u32) } else { None };
         hays.push(Hay { text, owner });
